@@ -125,6 +125,27 @@ def find_body_open(src, start):
     raise AnchorLost("no body found")
 
 
+def end_of_statement(src, start):
+    """Index just past the `;` that ends the statement starting at `start` (depth-aware)."""
+    i, depth = start, 0
+    while i < len(src):
+        j = _skip_string_or_comment(src, i)
+        if j is not None:
+            i = j
+            continue
+        c = src[i]
+        if c in "([{":
+            depth += 1
+        elif c in ")]}":
+            depth -= 1
+            if depth < 0:
+                raise AnchorLost("statement ran out of its block")
+        elif c == ";" and depth == 0:
+            return i + 1
+        i += 1
+    raise AnchorLost("unterminated statement")
+
+
 def strip_test_module(src):
     """Cut `#[cfg(test)] mod tests { .. }` so anchors never match test code."""
     m = re.search(r"#\[cfg\(test\)\]\s*(pub\s+)?mod\s+\w+\s*\{", src)
@@ -208,6 +229,14 @@ class Scratch:
         body = body_src[bo:e]
         stmts = []
         for rx in sl["stmts"]:
+            if isinstance(rx, dict) and "prefix_until" in rx:
+                # every statement of the function from its start up to and including the statement
+                # that begins at the unique match of rx["prefix_until"]
+                ms = list(re.finditer(rx["prefix_until"], body, re.S))
+                if len(ms) != 1:
+                    raise AnchorLost(f"slice prefix anchor /{rx['prefix_until']}/ matched {len(ms)} times in {sl['fn_anchor']}")
+                stmts.append(LINE_COMMENT_RE.sub("", body[1:end_of_statement(body, ms[0].start())]).strip())
+                continue
             if isinstance(rx, dict):
                 # brace-matched block (e.g. an `if cond { .. }` statement) starting at the unique match of rx["block"]
                 ms = list(re.finditer(rx["block"], body, re.S))
